@@ -69,6 +69,10 @@ def corpus():
         ('peer', [rq]), ('peer', store[:1] + [rc.enc_abort(0, 0)]), ('fin',)])
     c['A5_refused'] = dict(role='acceptor', user={'reject': (1, 1, 1)},
                            steps=[('peer', [rq]), ('fin',)])
+    # a request with another protocol-version field, refused by whoever refuses it (provider
+    # or user); the peer then never closes
+    c['A19_rq_v2_refused'] = dict(role='acceptor', user={'reject': (1, 2, 2)}, steps=[
+        ('peer', [rc.enc_assoc_rq(contexts=CTXS, max_length=4096, protocol=2)]), ('fin',)])
     c['A6_unknown_type'] = dict(role='acceptor', steps=[
         ('peer', [rq]), ('peer', [rc.enc_pdu(0x0B, b'\0\0\0\0')]), ('fin',)])
     c['A4b_abort_then_fin'] = dict(role='acceptor', steps=[
